@@ -328,8 +328,9 @@ var litTokTypes = map[int]sqlparser.ValType{
 	sqlparser.PG_ESCAPE_STRING: sqlparser.PgEscapeString,
 }
 
-// tokenize runs the real Tokenizer and renders the tokens in the protocol form.
-func tokenize(dialect, text string) []string {
+// tokenize runs the real Tokenizer and renders the tokens in the protocol form (asParserSees: comments skipped, as
+// Tokenizer.Lex does for the parser).
+func tokenize(dialect, text string, asParserSees bool) []string {
 	var tkn *sqlparser.Tokenizer
 	if dialect == "pg" {
 		tkn = sqlparser.NewStringTokenizerWithDialect(postgresql.NewPostgreSQLDialect(), text)
@@ -341,6 +342,9 @@ func tokenize(dialect, text string) []string {
 		typ, val := tkn.Scan()
 		if typ == 0 {
 			break
+		}
+		if typ == sqlparser.COMMENT && asParserSees {
+			continue // Tokenizer.Lex skips comments (AllowComments is off for statements)
 		}
 		switch {
 		case typ == sqlparser.ID:
@@ -415,7 +419,7 @@ func init() {
 	})
 	core.Register("C13.expr.tokens", func(a []string) string {
 		c16.SetDialect(a[0])
-		return "ok " + strings.Join(tokenize(a[0], sqlparser.String(toAST(mustETree(a[1:])))), " ")
+		return "ok " + strings.Join(tokenize(a[0], sqlparser.String(toAST(mustETree(a[1:]))), false), " ")
 	})
 	core.Register("C13.expr.roundtrip", func(a []string) string {
 		c16.SetDialect(a[0])
